@@ -7,8 +7,9 @@ use std::time::Instant;
 use crate::action::{Action, ClusterCfg};
 use crate::world::{Violation, World};
 
-fn test(cluster: &ClusterCfg, actions: &[Action], want: &Violation) -> Option<Violation> {
+fn test(cluster: &ClusterCfg, actions: &[Action], want: &Violation, focus: Option<&'static str>) -> Option<Violation> {
     let mut w = World::new(cluster.clone());
+    w.focus = focus;
     for a in actions {
         if let Err(v) = w.apply(a) {
             return if v.check == want.check && v.sig == want.sig { Some(v) } else { None };
@@ -20,15 +21,15 @@ fn test(cluster: &ClusterCfg, actions: &[Action], want: &Violation) -> Option<Vi
     }
 }
 
-pub fn minimise(cluster: &ClusterCfg, trace: &[Action], v: &Violation, budget_s: u64) -> (Vec<Action>, Violation) {
+pub fn minimise(cluster: &ClusterCfg, trace: &[Action], v: &Violation, budget_s: u64, focus: Option<&'static str>) -> (Vec<Action>, Violation) {
     let t0 = Instant::now();
     // cut everything after the violating step
     let mut cur: Vec<Action> = trace[..(v.step as usize).min(trace.len())].to_vec();
-    let mut cur_v = match test(cluster, &cur, v) {
+    let mut cur_v = match test(cluster, &cur, v, focus) {
         Some(x) => x,
         None => {
             cur = trace.to_vec();
-            match test(cluster, &cur, v) {
+            match test(cluster, &cur, v, focus) {
                 Some(x) => x,
                 None => return (trace.to_vec(), v.clone()), // not reproducible: report the full trace
             }
@@ -48,7 +49,7 @@ pub fn minimise(cluster: &ClusterCfg, trace: &[Action], v: &Violation, budget_s:
             let mut cand = Vec::with_capacity(cur.len() - (hi - lo));
             cand.extend_from_slice(&cur[..lo]);
             cand.extend_from_slice(&cur[hi..]);
-            if let Some(nv) = test(cluster, &cand, v) {
+            if let Some(nv) = test(cluster, &cand, v, focus) {
                 // keep only up to the violating step
                 cand.truncate((nv.step as usize).min(cand.len()));
                 cur = cand;
@@ -81,7 +82,7 @@ pub fn minimise(cluster: &ClusterCfg, trace: &[Action], v: &Violation, budget_s:
         if let Some(s) = simpler {
             let mut cand = cur.clone();
             cand[i] = s;
-            if let Some(nv) = test(cluster, &cand, v) {
+            if let Some(nv) = test(cluster, &cand, v, focus) {
                 cur = cand;
                 cur_v = nv;
             }
